@@ -22,7 +22,7 @@ from mc.props.c09 import arrays
 
 LEVEL = "model_checking"
 RULE = (
-    "Explicit-state exploration over call histories: ALL sequences up to depth 2 (quick) / 3 (thorough) over the operation alphabet {run A, run A with programs, run B, run A twice from a parameter set that carries a saved state, build A's model then deep-copy and process, "
+    "Explicit-state exploration over call histories: ALL sequences up to depth 2 (quick) / 3 (thorough) over the operation alphabet {run A, run A with programs, run B, run A twice from a parameter set that carries a saved state, run a project whose framework is an edited copy of A's (closed-form oracle for the edited function), build A's model then deep-copy and process, "
     "build then pickle round-trip and process, deep-copy a result, save+load a result, parameter scenario on A, sampled run with zero uncertainty, one-iteration optimisation of A, calibration of B with maxiters=1} on two different generated projects "
     "(no state deduplication: hidden global state is exactly what is being looked for). Invariants after EVERY operation: (i) its outputs are bit-identical to the outputs of the same operation from the initial state, "
     "(ii) the full structural snapshot of every input object (parameter sets, program set, instructions, frameworks, data, settings of both projects) is unchanged, (iii) copy / pickle / save-load variants equal the original. "
@@ -35,7 +35,7 @@ ASSUMPTIONS = [
 ]
 CASE_TIMEOUT = 900
 
-OPS = ["runA", "runAp", "runB", "runA_init", "copyA", "pickleA", "dcp_result", "saveload", "scenA", "sampled0", "optimA", "calibB"]
+OPS = ["runA", "runAp", "runB", "runA_init", "runA_edited", "copyA", "pickleA", "dcp_result", "saveload", "scenA", "sampled0", "optimA", "calibB"]
 
 
 class Ctx:
@@ -70,19 +70,21 @@ class Ctx:
 
 
 def dig(x):
-    """digest of all output arrays of a Result or processed Model"""
-    r = x
-    if isinstance(x, at.Model):
-        r = at.Result(model=x, parset=None, name="m") if False else None
-        h = hashlib.sha256()
-        for pop in x.pops:
-            for v in pop.comps + pop.characs + pop.pars + pop.links:
-                h.update(np.ascontiguousarray(np.asarray(v.vals, dtype=float)).tobytes())
-        return h.hexdigest()[:16]
+    """digest of all output arrays of a Result or processed Model: the stored arrays, and what the by-name accessors report (every compartment,
+    characteristic and parameter by its name, every flow as 'parameter:flow' and 'source:destination')"""
+    m = x if isinstance(x, at.Model) else x.model
     h = hashlib.sha256()
-    for pop in r.model.pops:
+    for pop in m.pops:
         for v in pop.comps + pop.characs + pop.pars + pop.links:
             h.update(np.ascontiguousarray(np.asarray(v.vals, dtype=float)).tobytes())
+        names = [v.name for v in pop.comps + pop.characs + pop.pars]
+        names += [v.name + ":flow" for v in pop.pars if v.links]
+        names += sorted({f"{l.source.name}:{l.dest.name}" for l in pop.links if l.dest.pop is pop})
+        for nm in names:
+            got = pop.get_variable(nm)
+            h.update(f"{nm}#{len(got)}".encode())
+            tot = sum(np.asarray(g.vals, dtype=float) for g in got)
+            h.update(np.ascontiguousarray(tot).tobytes())
     return h.hexdigest()[:16]
 
 
@@ -108,6 +110,17 @@ def apply_op(ctx, op):
             A.P.settings.update_time_vector(start=s0)
     elif op == "runB":
         out["B"] = dig(B.P.run_sim(B.parset, store_results=False))
+    elif op == "runA_edited":
+        # a copy of A's framework (same uid) in which the function of the output parameter tt is edited: the run must use the edited function
+        F2 = sc.dcp(A.F)
+        F2.pars.at["tt", "function"] = "0.02*(t-2000)"
+        P2 = at.Project(framework=F2, databook=sc.dcp(A.D), do_run=False)
+        P2.settings = sc.dcp(A.P.settings)
+        r2 = P2.run_sim(P2.parsets[0], store_results=False)
+        out["A2"] = dig(r2)
+        tt = np.asarray(r2.model.pops[0].get_par("tt").vals, dtype=float)
+        exp = 0.02 * (np.asarray(r2.model.t) - 2000)
+        out["A2#closed-form"] = "ok" if np.allclose(tt, exp, rtol=1e-12, atol=1e-15) else f"tt = {tt[:3].tolist()}..., the edited function gives {exp[:3].tolist()}..."
     elif op in ("copyA", "pickleA"):
         m = at.Model(A.P.settings, A.F, A.parset, A.progset, A.instr)
         m2 = copy.deepcopy(m) if op == "copyA" else pickle.loads(pickle.dumps(m))
@@ -183,6 +196,8 @@ def run_history(case):
         prefix = case["hist"][: i + 1]
         for label, d in got.items():
             base = label.split("#")[0]
+            if label.endswith("#closed-form") and d != "ok":
+                vs.append(V("edited-framework-not-used", f"after {prefix}: {op}: {d}", dict(hist=prefix)))
             exp = ref[op].get(label)
             if exp is None or d != exp:
                 vs.append(V("output-depends-on-history", f"after {prefix}: output {label} of {op} has digest {d}, from the initial state it has {exp}", dict(hist=prefix)))
